@@ -98,6 +98,12 @@ def check(model, rep, tier):
            'every plain name in it (the setter parameter is reserved against '
            'the union of the supports)', floor=3)
   rules_qn.support(model, rep, 'HYG-SUPPORT')
+  # the reserved sets are scope.referenced of the enclosing blocks: whatever a
+  # statement records there must stay
+  from sa.props import C08 as _c08
+  rep.rule('HYG-SCOPE-GROWS', 'names recorded in a scope are never removed from it '
+           '(reserved sets are read off the scopes)', floor=1)
+  _c08.scope_grows(model, rep, 'HYG-SCOPE-GROWS')
 
   # ---------------------------------------------------------------- HYG-RESERVED
   n_sites = 0
@@ -354,6 +360,7 @@ def check(model, rep, tier):
             hp = hf.params()[0] if hf.params() else 'node'
             ys, problems = collect.yields(hf.node)
             groups = set()
+            skips_root = []
             shape_ok = bool(ys) and not problems
             for levels, elt, _acc in ys:
               if len(levels) != 2:
@@ -376,6 +383,8 @@ def check(model, rep, tier):
               L, S = formula.atom('LAMBDA'), formula.atom('SELF')
               ok1 = core.norm(l1['iter']) == 'ast.walk(%s)' % hp and (
                   formula.equivalent(c1, L & ~S)[0] or formula.equivalent(c1, L)[0])
+              if formula.equivalent(c1, L & ~S)[0]:
+                skips_root.append(True)
               c2 = formula.TRUE
               for pol, t in l2['conds']:
                 f_ = formula.bool_formula(
@@ -394,6 +403,22 @@ def check(model, rep, tier):
               groups |= got
             lam_ok = lam_ok and shape_ok and {'posonlyargs', 'args', 'kwonlyargs',
                                               'vararg', 'kwarg'} <= groups
+            # the tree searched: the function being converted (a helper that
+            # skips its root must be given exactly that node, or the lambda that
+            # is the root of what it is given goes unreserved)
+            hp0 = h.params()[0]
+
+            class _Vis(ast.NodeTransformer):
+              def visit_Call(self, c_):
+                self.generic_visit(c_)
+                if core.norm(c_.func) in ('self.generic_visit', 'self.visit') and \
+                    len(c_.args) == 1:
+                  return c_.args[0]
+                return c_
+            arg0 = core.norm(_Vis().visit(tpl.expand(h, l.args[0], calls[0]))) \
+                if l.args else None
+            lam_ok = lam_ok and (arg0 == hp0 or (not skips_root and arg0 in (
+                hp0 + '.body', hp0)))
     rep.check(lam_ok, 'HYG-BIND', '%s:nested-lambda-parameters-reserved' % h.site,
               'lambdas nested in the function get no scope object of their own: '
               'generated calls in their bodies name the enclosing function\'s '
